@@ -169,6 +169,25 @@ def check(ctx):
                     lines.append("Str %s %s %d %d %d %d" % (fn, fmt(m), c[0], c[1], c[2], rng.randrange(8)))
                 except Exception:
                     pass
+    # bounds near SIZE_MAX for the functions whose definition stops earlier (terminator, or for memchr the first match)
+    for _ in range(600 if ctx.thorough else 120):
+        N = rng.choice([2, 3, 8, 17, 40])
+        m = [0 if rng.random() < 0.15 else rng.choice([97, 65, 255, 1 + rng.randrange(255)]) for _ in range(N)]
+        m[-1] = 0
+        a = rng.randrange(N); b = rng.randrange(N); huge = rng.choice([-1, -2, -8, -4096])
+        fn = rng.choice(["memchr", "strnlen", "strndup", "strncmp", "strncasecmp", "strncat"])
+        if fn == "memchr":
+            c = m[rng.randrange(a, N)]                 # a byte that does occur at or after a
+            lines.append("Str memchr %s %d %d %d %d" % (fmt(m), a, c, huge, rng.randrange(8)))
+        elif fn in ("strnlen", "strndup"):
+            lines.append("Str %s %s %d 0 %d %d" % (fn, fmt(m), a, huge, rng.randrange(8)))
+        elif fn in ("strncmp", "strncasecmp"):
+            lines.append("Str %s %s %d %d %d %d" % (fn, fmt(m), a, b, huge, rng.randrange(8)))
+        else:
+            la, lb = slen(m, 0), None
+            m2 = [rng.randrange(1, 256) for _ in range(rng.randrange(0, 4))] + [0] + [7] * (N + 2) + m    # dest string with room, then the source arena
+            d_off = 0; s_off = len(m2) - N + a
+            lines.append("Str strncat %s %d %d %d %d" % (fmt(m2), d_off, s_off, huge, rng.randrange(8)))
     # long aligned / misaligned block copies and moves with every relative alignment
     for fn in ("memcpy", "memmove", "memset", "memcmp"):
         for da in range(8):
